@@ -335,8 +335,20 @@ class VizierServicer(vizier_service_pb2_grpc.VizierServiceServicer):
         )
       except custom_errors.NotFoundError:
         active_op_list = []
-      if active_op_list:
-        return active_op_list[0]  # We've found the active one!
+      # SuggestTrials runs to completion while holding the operation lock, so an
+      # operation that is still not done at this point was abandoned (e.g. the
+      # server process died in the middle of it). Returning it would answer
+      # this client from the dead operation forever: close it with an error
+      # and start a new one.
+      for abandoned_op in active_op_list:
+        abandoned_op.error.CopyFrom(
+            status_pb2.Status(
+                code=code_pb2.Code.ABORTED,
+                message='Operation was abandoned before it finished.',
+            )
+        )
+        abandoned_op.done = True
+        self.datastore.update_suggestion_operation(abandoned_op)
 
       start_time = _get_current_time()
       # Create a new Op if there aren't any active (not done) ops.
